@@ -167,6 +167,8 @@ def enum_item_text(spec, cfg, derive_path="EnumTools", with_tools=True, extra_de
         derives += ", " + extra_derives
     if with_tools:
         derives += ", " + derive_path
+    if spec.get("derive_ord") and not only_tools:
+        derives += ", ::core::cmp::PartialEq, ::core::cmp::Eq, ::core::cmp::PartialOrd, ::core::cmp::Ord"
     if only_tools:
         derives = derive_path
     lines.append("    #[derive(%s)]" % derives)
@@ -269,13 +271,17 @@ def dispatch_text(spec, cfg, ep, in_fn=False):
         A('"walk_back" => crate::rt::walk(VARS[crate::rt::idx(a, 0)], %d, %s::%s, show),' % (n + 2, ep, nm("next_back")))
     A('"ref_iter" => crate::rt::run_iter(crate::rt::vec_iter(&SORTED), a, show),')
     A('"ref_range" => crate::rt::run_iter(crate::rt::ref_range(&SORTED, key, key(&VARS[crate::rt::idx(a, 0)]), key(&VARS[crate::rt::idx(a, 1)])), &a[2..], show),')
-    A('"ref_names" => crate::rt::run_iter(crate::rt::vec_iter(&NAMES), a, crate::rt::show_str),')
+    A('"ref_names" => crate::rt::run_iter_ord(crate::rt::vec_iter(&NAMES), a, crate::rt::show_str),')
+    ri = "run_iter_ord" if spec.get("derive_ord") else "run_iter"
+    if spec.get("derive_ord"):
+        arms[:] = [x.replace('"ref_iter" => crate::rt::run_iter(', '"ref_iter" => crate::rt::run_iter_ord(').replace(
+            '"ref_range" => crate::rt::run_iter(', '"ref_range" => crate::rt::run_iter_ord(') for x in arms]
     if en("iter"):
-        A('"iter" => crate::rt::run_iter(%s::%s(), a, show),' % (ep, nm("iter")))
+        A('"iter" => crate::rt::%s(%s::%s(), a, show),' % (ri, ep, nm("iter")))
     if en("range"):
-        A('"range" => crate::rt::run_iter(%s::%s(VARS[crate::rt::idx(a, 0)], VARS[crate::rt::idx(a, 1)]), &a[2..], show),' % (ep, nm("range")))
+        A('"range" => crate::rt::%s(%s::%s(VARS[crate::rt::idx(a, 0)], VARS[crate::rt::idx(a, 1)]), &a[2..], show),' % (ri, ep, nm("range")))
     if en("names"):
-        A('"names" => crate::rt::run_iter(%s::%s(), a, crate::rt::show_str),' % (ep, nm("names")))
+        A('"names" => crate::rt::run_iter_ord(%s::%s(), a, crate::rt::show_str),' % (ep, nm("names")))
     if en("names") and en("iter"):
         A('"zip" => crate::rt::zip_list(%s::%s(), %s::%s(), show, crate::rt::show_str),' % (ep, nm("iter"), ep, nm("names")))
     A('_ => ::std::panic!("HARNESS: unknown command {}", cmd),')
